@@ -6,6 +6,7 @@ import (
 	"fmt"
 	"math/rand/v2"
 	"net/netip"
+	"os"
 	"slices"
 	"strings"
 	"sync"
@@ -588,6 +589,16 @@ func realConfig(r *rand.Rand, kind int) (m.RoutingTableConfig, netip.Addr, strin
 		routerPrefix = marker.Prefix
 	}
 	routerPrefix = routerPrefix.Masked()
+	if kind >= 3 {
+		// a country prefix that lies in the middle of its /16 (the identities above happen to get halves, first
+		// quarters or whole /16s): /18 or /19 somewhere inside, the router inside it
+		b := routerIP.As16()
+		bits := 18 + (kind-3)%2
+		b[2] = b[2]&0x1f | []byte{0x40, 0x80, 0x60, 0xa0}[r.IntN(4)]
+		routerIP = netip.AddrFrom16(b)
+		routerPrefix, _ = routerIP.Prefix(bits)
+		name = fmt.Sprintf("country-prefix-/%d-inside-its-region", bits)
+	}
 	return m.RoutingTableConfig{RoutablePrefixes: m.GetRoutablePrefixesFor(routerIP, routerPrefix), RouterIP: routerIP}, routerIP, name + "/" + routerIP.String()
 }
 
@@ -708,6 +719,13 @@ func nestedCleanRun(res *core.Result, r *rand.Rand, kind int) {
 		}
 	}
 	c.apply(op{kind: opClean, name: "clean"}, true)
+	if os.Getenv("VERIF_DEBUG_C11") != "" {
+		cnt := map[netip.Prefix]int{}
+		for _, e := range c.tbl.VerifEntries() {
+			cnt[e.RoutingPrefix]++
+		}
+		fmt.Fprintf(os.Stderr, "DEBUG nested kind=%d router=%s prefixes=%v counts=%v fail=%v\n", kind, routerIP, cfg.RoutablePrefixes, cnt, c.fail)
+	}
 	if !c.fail {
 		res.Count("nested_clean_runs", 1)
 		res.Case(fmt.Sprintf("nested-clean|%d|%x", kind, r.Uint64()), true)
@@ -1251,7 +1269,7 @@ func run(c *core.Ctx) {
 		r := core.RNG(fmt.Sprintf("c11/sat/%d", w))
 		for i := w; i < c.Q(32, 400); i += W {
 			saturationRun(res, r, 1+i%6)
-			nestedCleanRun(res, r, i%3)
+			nestedCleanRun(res, r, i%5)
 		}
 	})
 
